@@ -353,8 +353,8 @@ func checkC18(w *World, r *Report) {
 		} else {
 			info := fi.Pkg.TypesInfo
 			resOK := map[types.Object]bool{}
-			var dParam types.Object
-			if len(fi.Decl.Type.Params.List) > 0 && len(fi.Decl.Type.Params.List[0].Names) > 0 {
+			dParam := descriptorParam(fi)
+			if dParam == nil && len(fi.Decl.Type.Params.List) > 0 && len(fi.Decl.Type.Params.List[0].Names) > 0 {
 				dParam = info.Defs[fi.Decl.Type.Params.List[0].Names[0]]
 			}
 			onType := false
@@ -505,6 +505,9 @@ func ruleBuiltins(w *World, r *Report, ro *roles) {
 		}
 	}
 	if disp == nil {
+		if builtinTableForm(w, r, ro, top, want) {
+			return
+		}
 		r.Fail("R18.1", top.Name()+"#builtin-switch", top.Decl.Pos(), "resolution has no dispatch on the requested type that serves the built-in services")
 		return
 	}
@@ -675,4 +678,215 @@ func ruleBuiltins(w *World, r *Report, ro *roles) {
 			}
 		}
 	}
+}
+
+// builtinTableForm: the built-in dispatch written as a table of functions,
+//
+//	var builtinResolvers = map[reflect.Type]func(*scope) any{contextType: func(s *scope) any { return s.context }, …}
+//	if f, ok := builtinResolvers[key.Type]; ok { return f(s), nil }
+//
+// The same obligations as for the switch form are decided: exactly the three
+// reserved types, each served with the resolving scope's own value, only for
+// unkeyed and ungrouped requests, before the registry lookup; and the table is
+// read-only (its only use is that lookup).
+func builtinTableForm(w *World, r *Report, ro *roles, top *FuncInfo, want map[string]string) bool {
+	ginfo := w.Godi.TypesInfo
+	// package-level map literals from reflect.Type to func(…) any
+	type tbl struct {
+		obj types.Object
+		lit *ast.CompositeLit
+	}
+	var tables []tbl
+	for _, f := range w.Godi.Syntax {
+		for _, d := range f.Decls {
+			gd, ok := d.(*ast.GenDecl)
+			if !ok {
+				continue
+			}
+			for _, sp := range gd.Specs {
+				vs, ok := sp.(*ast.ValueSpec)
+				if !ok {
+					continue
+				}
+				for i, nm := range vs.Names {
+					if i >= len(vs.Values) {
+						continue
+					}
+					cl, ok := unparen(vs.Values[i]).(*ast.CompositeLit)
+					if !ok {
+						continue
+					}
+					mt, ok := ginfo.Defs[nm].Type().Underlying().(*types.Map)
+					if !ok || !isNamedType(mt.Key(), "reflect", "Type") {
+						continue
+					}
+					if _, isSig := mt.Elem().Underlying().(*types.Signature); isSig {
+						tables = append(tables, tbl{ginfo.Defs[nm], cl})
+					}
+				}
+			}
+		}
+	}
+	for _, tb := range tables {
+		// the lookup: v, ok := T[x.Type]
+		var disp *FuncInfo
+		var lookup *ast.AssignStmt
+		for _, f := range w.Within(top, 2) {
+			if ro.isCreate(f.Obj) || f == ro.setInstance {
+				continue
+			}
+			info := f.Pkg.TypesInfo
+			ast.Inspect(f.Decl.Body, func(x ast.Node) bool {
+				as, ok := x.(*ast.AssignStmt)
+				if !ok || len(as.Lhs) != 2 || len(as.Rhs) != 1 {
+					return true
+				}
+				ix, ok := unparen(as.Rhs[0]).(*ast.IndexExpr)
+				if ok && objOf(info, ix.X) == tb.obj && isFieldNamed(info, ix.Index, "Type") {
+					disp, lookup = f, as
+				}
+				return true
+			})
+		}
+		if disp == nil {
+			continue
+		}
+		r.Analysed(disp)
+		info := disp.Pkg.TypesInfo
+		var recv types.Object
+		if disp.Decl.Recv != nil && len(disp.Decl.Recv.List[0].Names) == 1 {
+			recv = info.Defs[disp.Decl.Recv.List[0].Names[0]]
+		}
+		// ---- the entries
+		seen := map[string]bool{}
+		for _, el := range tb.lit.Elts {
+			kv, ok := el.(*ast.KeyValueExpr)
+			if !ok {
+				continue
+			}
+			target := typeVarTarget(w, objOf(ginfo, kv.Key))
+			wantField, known := want[target]
+			if !known {
+				r.Fail("R18.1", disp.Name()+"#builtin:"+exprStr(kv.Key), kv.Pos(), "the built-in table has an entry for %s, which is not one of the three reserved types", exprStr(kv.Key))
+				continue
+			}
+			seen[target] = true
+			bad := ""
+			fl, isLit := unparen(kv.Value).(*ast.FuncLit)
+			var ret *ast.ReturnStmt
+			var param types.Object
+			if isLit && len(fl.Body.List) == 1 && fl.Type.Params != nil && len(fl.Type.Params.List) == 1 && len(fl.Type.Params.List[0].Names) == 1 {
+				ret, _ = fl.Body.List[0].(*ast.ReturnStmt)
+				param = ginfo.Defs[fl.Type.Params.List[0].Names[0]]
+			}
+			switch {
+			case ret == nil || len(ret.Results) != 1:
+				bad = "the entry is not a function of the resolving scope that returns one value"
+			case wantField == "<receiver>":
+				if objOf(ginfo, ret.Results[0]) != param {
+					bad = "it returns " + exprStr(ret.Results[0]) + " instead of the resolving scope itself"
+				}
+			default:
+				fv := plainFieldOf(ginfo, ret.Results[0])
+				if fv == nil || w.canonName(fv) != wantField || objOf(ginfo, selBase(ret.Results[0])) != param {
+					bad = "it returns " + exprStr(ret.Results[0]) + " instead of the resolving scope's own " + wantField
+				}
+			}
+			r.Check(bad == "", "R18.1", disp.Name()+"#builtin:"+target, kv.Pos(), true, target+" resolves to the resolving scope's own value", "built-in "+target+": "+bad)
+		}
+		for t := range want {
+			if !seen[t] {
+				r.Fail("R18.1", disp.Name()+"#builtin:"+t, tb.lit.Pos(), "the built-in table has no entry for %s", t)
+			}
+		}
+		// ---- the table is read-only: its only use is the lookup
+		uses := 0
+		for _, p := range w.Pkgs {
+			for id, o := range p.TypesInfo.Uses {
+				if o == tb.obj {
+					uses++
+					_ = id
+				}
+			}
+		}
+		r.Check(uses == 1, "R18.1", disp.Name()+"#builtin-table-readonly", tb.lit.Pos(), false, "the built-in table is only read, by the lookup in "+disp.Name(),
+			fmt.Sprintf("the built-in table is used at %d places besides its definition: an entry added or replaced at run time changes what Context/Provider/Scope resolve to", uses))
+		// ---- the use: on the ok edge, return v(receiver), nil under the guard
+		vObj, okObj := objOf(info, lookup.Lhs[0]), objOf(info, lookup.Lhs[1])
+		fl := w.FlowOf(disp)
+		ce := condEdge(w, info, 2)
+		sol := fl.Solve(Spec{Must: true,
+			Node: func(n ast.Node, in Facts) (gen, kill []string) {
+				if n == lookup || (n.Pos() <= lookup.Pos() && lookup.End() <= n.End()) {
+					gen = append(gen, "builtins-checked")
+				}
+				return
+			},
+			Edge: func(b *cfg.Block, i int, cond ast.Expr, in Facts) (gen, kill []string) {
+				if cond == nil {
+					return
+				}
+				if objOf(info, unparen(cond)) == okObj {
+					if i == 0 {
+						gen = append(gen, "tbl-hit")
+					}
+					return
+				}
+				// the guard (Key/Group test) has been evaluated: a keyed or grouped request is never a built-in
+				for _, f := range append(condFacts(info, cond, true), condFacts(info, cond, false)...) {
+					if strings.Contains(f, ".Key=") || strings.Contains(f, ".Group=") {
+						gen = append(gen, "builtins-checked")
+					}
+				}
+				g2, k2 := ce(b, i, cond, in)
+				return append(gen, g2...), k2
+			}})
+		served := 0
+		for _, ex := range fl.Exits() {
+			at := sol.AtExit(ex)
+			if !at.Has("tbl-hit") {
+				continue
+			}
+			served++
+			bad := ""
+			if ex.Ret == nil || len(ex.Ret.Results) != 2 || !isNilIdent(info, ex.Ret.Results[1]) {
+				bad = "the hit edge does not return (value, nil)"
+			} else if c, ok := unparen(ex.Ret.Results[0]).(*ast.CallExpr); !ok || objOf(info, c.Fun) != vObj || len(c.Args) != 1 || objOf(info, c.Args[0]) != recv {
+				bad = "the hit edge returns " + exprStr(ex.Ret.Results[0]) + ", not the table's function applied to the resolving scope"
+			}
+			r.Check(bad == "", "R18.1", disp.Name()+"#builtin-served", ex.Pos, true, "a hit in the built-in table is answered with the entry applied to the resolving scope", bad)
+			keyNil, groupEmpty := false, false
+			for k := range at {
+				if strings.HasSuffix(k, ".Key=nil") {
+					keyNil = true
+				}
+				if strings.HasSuffix(k, ".Group=empty") {
+					groupEmpty = true
+				}
+			}
+			r.Check(keyNil && groupEmpty, "R18.1", disp.Name()+"#builtin:guard", ex.Pos, true,
+				"built-ins are served for unkeyed, ungrouped requests only",
+				fmt.Sprintf("a built-in is served without the request having been found unkeyed and ungrouped (Key==nil known: %v, Group==\"\" known: %v)", keyNil, groupEmpty))
+		}
+		if served == 0 {
+			r.Fail("R18.1", disp.Name()+"#builtin-served", lookup.Pos(), "no exit on the hit edge of the built-in table lookup")
+		}
+		// ---- before the registry lookup
+		if disp == top {
+			n := 0
+			for _, nd := range fl.Nodes() {
+				for _, c := range callsIn(nd, false) {
+					if cal := callee(info, c); w.IsFn(cal, w.Godi, "(*provider).findDescriptor") {
+						n++
+						r.Check(sol.Before[nd].Has("builtins-checked"), "R18.1", fmt.Sprintf("%s#lookup-after-builtins/%d", top.Name(), n), c.Pos(), true,
+							"the registry lookup is only reached after the built-in test", "the registry is consulted before the built-in services: a registration could shadow them")
+					}
+				}
+			}
+		} else {
+			r.Undecided("R18.1", top.Name()+"#lookup-after-builtins", top.Decl.Pos(), "the built-in table lookup lives in %s: its order relative to the registry lookup is not decided", disp.Name())
+		}
+		return true
+	}
+	return false
 }
